@@ -83,6 +83,12 @@ REGISTRY["C03"] = {"harnesses": ["symx.harness.c03_level"], "level": "model_chec
 REGISTRY["C04"] = {"harnesses": ["symx.harness.c04_contain"], "level": "model_checking", "text": _SCOPE_TEXT + "C04 clauses: an operation is interrupted only while its scope is effectively cancelled; absorb iff own cancel and no visible cancelled ancestor; cancelled_caught exact.", "note": _SCOPE_NOTE}
 REGISTRY["C05"] = {"harnesses": ["symx.harness.c05_residue"], "level": "model_checking", "text": _SCOPE_TEXT + "C05 clauses: Task.cancelling() restored (also after 1-4 re-deliveries and counts handed to a cancelled parent), later awaits undisturbed, asyncio.timeout after the scopes behaves, loop idle after the program (no live timer / busy callback).", "note": _SCOPE_NOTE}
 REGISTRY["C06"] = {"harnesses": ["symx.harness.c06_deadline"], "level": "model_checking", "text": _SCOPE_TEXT + "C06 clauses: deadline fires iff due while active, at exactly the due tick, re-armed on assignment, never after exit; move_on_*/fail_* report exactly their own deadline; current_effective_deadline() equals the closed form at every operation.", "note": _SCOPE_NOTE}
+_TG_TEXT = ("Bounded symbolic model checking of the real TaskGroup code (__aenter__/__aexit__/_spawn/task_done/create_task/start_soon/start, TaskHandle) on the real asyncio loop logic "
+            "with a virtual clock: 1-3 children with behaviours from a 9-element alphabet (return, raise, block, shielded cleanup, swallow-and-recheck, raise from cleanup, spawn grandchild, "
+            "nested group, late sibling), started via start_soon/create_task/start; sleep durations, return values and the instants (tick + cycle offset) of group/outer/handle/native cancels symbolic. ")
+_TG_NOTE = "Trusted: z3, CrossHair, CPython's C Task/Future, VLoop stubs. Outside: >3 children, nesting depth >2, uvloop, trio."
+REGISTRY["C01"] = {"harnesses": ["symx.harness.c01_join"], "level": "model_checking", "text": _TG_TEXT + "C01 clauses: at the first instruction after the block every child has terminated and takes no further step; every TaskHandle is final and matches how the coroutine ended.", "note": _TG_NOTE}
+REGISTRY["C02"] = {"harnesses": ["symx.harness.c02_errors", "symx.harness.c07_start"], "level": "model_checking", "text": _TG_TEXT + "C02 clauses: leaves of the raised exception group == the non-cancellation exceptions actually raised (by identity, exactly once), no own cancellation reported, siblings cancelled after a failure; plus the start() scenarios of C07 (starter cancelled while the child unwinds).", "note": _TG_NOTE}
 
 NOT_APPLICABLE = {
     "C17": "TLS record framing/fragmentation/truncation happens inside OpenSSL (ssl.SSLObject/MemoryBIO, C code): no available engine can execute it symbolically, and a stub would make the check a statement about the stub (DESIGN.md section 3, C17).",
